@@ -379,3 +379,266 @@ def offender(r, cls: str | None = None, lang: str | None = None):
         except (UnicodeDecodeError, ValueError, IndexError):
             pass
     return {"cls": cls, "kind": kind, "lang": lang, "name": name, "data": data}
+
+
+# ====================================================================== token-level mutations inside constructs
+PATH_RE = re.compile(rb"[A-Za-z_][A-Za-z0-9_]*(?:(?:::|\.)[A-Za-z_][A-Za-z0-9_]*)+")
+ARGS_RE = re.compile(rb"(?<=[A-Za-z0-9_!>\]])\(([^()\n]+)\)")
+NUM_RE = re.compile(rb"(?<![A-Za-z0-9_.])(?:0[xXbBoO][0-9A-Fa-f_]+|[0-9][0-9_]*(?:\.[0-9][0-9_]*)?(?:[eE][+-]?[0-9]+)?)(?:_?[a-z][a-z0-9]*)?(?![A-Za-z0-9_])")
+OP_RE = re.compile(rb"==|!=|<=|>=|&&|\|\||->|=>|\+=|-=|\*=|::|\.\.|<<|>>|[-+*/%<>=!&|^~?:;,.]")
+OPS = [b"==", b"!=", b"<=", b">=", b"<", b">", b"+", b"-", b"*", b"/", b"%", b"&&", b"||", b"=", b"+=", b"->", b"=>", b".", b",", b":", b";",
+       b"?", b"&", b"|", b"!", b"::", b"..", b"**", b"//", b"<<", b" and ", b" or ", b" not ", b" in ", b" is ", b" as "]
+
+PATH_VARIANTS = ["drop-last", "drop-first", "drop-middle", "dup-last", "swap-last-two", "keep-first", "dup-sep"]
+ARG_VARIANTS = ["drop-first", "drop-last", "dup-first", "swap", "empty", "trailing-comma", "only-commas"]
+OP_VARIANTS = ["delete", "dup", "replace"]
+
+
+def _path_variant(m: bytes, v: str) -> bytes:
+    sep = b"::" if b"::" in m else b"."
+    parts = m.split(sep)
+    if v == "drop-last":
+        parts = parts[:-1]
+    elif v == "drop-first":
+        parts = parts[1:]
+    elif v == "drop-middle" and len(parts) > 2:
+        parts = parts[:1] + parts[2:]
+    elif v == "dup-last":
+        parts = parts + parts[-1:]
+    elif v == "swap-last-two":
+        parts = parts[:-2] + [parts[-1], parts[-2]]
+    elif v == "keep-first":
+        parts = parts[:1]
+    elif v == "dup-sep":
+        return (sep + sep).join(parts)
+    else:
+        parts = parts[:-1]
+    return sep.join(parts)
+
+
+def _arg_variant(inner: bytes, v: str) -> bytes:
+    args = [a for a in inner.split(b",")]
+    if v == "drop-first":
+        args = args[1:]
+    elif v == "drop-last":
+        args = args[:-1]
+    elif v == "dup-first":
+        args = args[:1] + args
+    elif v == "swap" and len(args) > 1:
+        args = [args[-1]] + args[1:-1] + [args[0]]
+    elif v == "empty":
+        args = []
+    elif v == "trailing-comma":
+        args = args + [b""]
+    elif v == "only-commas":
+        args = [b""] * (len(args) + 1)
+    return b",".join(args)
+
+
+def _sub_sites(r, regex, b: bytes, fn, mode: str):
+    """apply fn(match bytes) at one random site (mode single) or at every site (mode all)"""
+    ms = list(regex.finditer(b))
+    if not ms:
+        return None
+    chosen = ms if mode == "all" else [r.choice(ms)]
+    out, last = [], 0
+    for m in chosen:
+        out.append(b[last:m.start()])
+        out.append(fn(m))
+        last = m.end()
+    out.append(b[last:])
+    return b"".join(out)
+
+
+def m_path_segment(r, lang, b, variant=None, mode=None):
+    variant = variant or r.choice(PATH_VARIANTS)
+    mode = mode or r.choice(["single", "all", "all"])
+    res = _sub_sites(r, PATH_RE, b, lambda m: _path_variant(m.group(0), variant), mode)
+    if res is None:
+        res = b + {"py": b"\nx = a.b.c(1)\n", "rs": b"\nfn zz() { a::b::c(1); }\n"}.get(lang, b"\nconst zz = a.b.c(1);\n")
+        res = _sub_sites(r, PATH_RE, res, lambda m: _path_variant(m.group(0), variant), mode)
+    return f"{variant}:{mode}", res
+
+
+def m_call_arg(r, lang, b, variant=None, mode=None):
+    variant = variant or r.choice(ARG_VARIANTS)
+    mode = mode or r.choice(["single", "all"])
+    res = _sub_sites(r, ARGS_RE, b, lambda m: b"(" + _arg_variant(m.group(1), variant) + b")", mode)
+    if res is None:
+        res = b + b"\nf(1, 2)\n"
+    return f"{variant}:{mode}", res
+
+
+def m_operator(r, lang, b, variant=None, mode=None):
+    variant = variant or r.choice(OP_VARIANTS)
+    mode = mode or "single"
+
+    def fn(m):
+        if variant == "delete":
+            return b""
+        if variant == "dup":
+            return m.group(0) * 2
+        return r.choice(OPS)
+    if mode == "all":   # every 7th operator, otherwise nothing is left of the file
+        ms = list(OP_RE.finditer(b))
+        k = r.randrange(7)
+        out, last = [], 0
+        for i, m in enumerate(ms):
+            if i % 7 != k:
+                continue
+            out += [b[last:m.start()], fn(m)]
+            last = m.end()
+        out.append(b[last:])
+        return f"{variant}:every7th", b"".join(out)
+    res = _sub_sites(r, OP_RE, b, fn, "single")
+    return f"{variant}:single", res if res is not None else b + b" = = \n"
+
+
+NUM_VARIANTS = [b"0755", b"07", b"00", b"01", b"08", b"09", b"0_7", b"007e1", b"0x", b"0X", b"0b", b"0o", b"0b2", b"0o8", b"0xG", b"0x_", b"0x_1",
+                b"1__0", b"1_", b"1_000_", b"1e", b"1e+", b"1e-", b"1E", b"1e999", b"1e-999", b"1e1_0", b"1.", b"1.e5", b"1._5", b"1.5.2", b"0.0.0",
+                b"1n", b"0n", b"1.5n", b"0x1Fn", b"1_n", b"00n", b"1u", b"1u99", b"1_u32", b"1usize", b"1f32", b"1.0f", b"1.0e10f64", b"0x1f32", b"0b1u8",
+                b"1i", b"1isize", b"u32", b"f64", b"1j", b"1J", b"1.5j", b"0xFFFFFFFFFFFFFFFFFFFFFFFFFFFFFFFF", b"0b" + b"1" * 300, b"0o" + b"7" * 300,
+                b"9" * 400, b"9" * 5000, b"0x" + b"F" * 5000, b"0." + b"3" * 400, b"1e" + b"9" * 40, b"1" + b"_0" * 200, b"0" * 50, b"0" * 50 + b"1",
+                b"1_000_000", b"0_0", b"0xdead_beef", b"0XFF", b"0B1", b"0O7", b"1E5", b"1e05", b"0e0", b"-0", b"+1", b"--1", b"1 .5", b".5", b"5.",
+                "١٢٣".encode(), "１２".encode(), "1²".encode(), b"1'000", b"1,5", b"0x1p3", b"0x1.8p1", b"1e5L", b"1L", b"1l",
+                b"0777L", b"1.0d", b"NaN", b"Infinity", b"inf", b"1e400", b"4.9e-324", b"1.7976931348623157e308", b"18446744073709551616",
+                b"340282366920938463463374607431768211456u128", b"-9223372036854775809"]
+
+
+def m_numeric_literal(r, lang, b, mode=None, variants=None):
+    mode = mode or r.choice(["single", "all"])
+    pool = variants or NUM_VARIANTS
+    used = []
+
+    def fn(_m):
+        v = r.choice(pool)
+        used.append(v[:12].decode("latin-1"))
+        return v
+    res = _sub_sites(r, NUM_RE, b, fn, mode)
+    if res is None:
+        v = r.choice(pool)
+        used.append(v[:12].decode("latin-1"))
+        res = b + {"py": b"\nzz = %s\n", "rs": b"\nfn zz() { let z = %s; }\n"}.get(lang, b"\nconst zz = %s;\n") % v
+    return f"{mode}:{'|'.join(used[:4])}", res
+
+
+def numeric_sweep(lang: str) -> bytes:
+    """every spelling once, one statement per literal (deterministic part of every run)"""
+    if lang == "py":
+        body = b"".join(b"a%d = %s\n" % (i, v) for i, v in enumerate(NUM_VARIANTS))
+        return b'"""\nPurpose: numeric spellings\n"""\n' + body
+    if lang == "rs":
+        return b"fn spellings() {\n" + b"".join(b"    let a%d = %s;\n" % (i, v) for i, v in enumerate(NUM_VARIANTS)) + b"}\n"
+    return b"function spellings() {\n" + b"".join(b"  const a%d = %s;\n" % (i, v) for i, v in enumerate(NUM_VARIANTS)) + b"}\n"
+
+
+# ====================================================================== comment / directive payloads
+HASH_FORMS = ["# noqa", "# noqa: {P}", "# noqa:{P}", "#noqa: {P}", "# NOQA: {P}", "# flake8: noqa: {P}", "# type: ignore", "# type: ignore[{P}]",
+              "# pylint: disable={P}", "# pylint: disable-next={P}", "# nosec", "# nosec {P}", "# pyright: ignore[{P}]", "# mypy: {P}",
+              "# thailint: ignore", "# thailint: ignore[{P}]", "# thailint: ignore-file[{P}]", "# thailint: ignore-next-line[{P}]",
+              "# thailint: ignore-start[{P}]", "# thailint: ignore-end {P}", "# thailint: ignore {P}", "# dry: ignore-block {P}", "# dry: ignore-next {P}",
+              "# pragma: no cover {P}", "# fmt: {P}", "# isort:{P}", "# TODO({P}): {P}", "# -*- coding: {P} -*-", "# {P}", "#!{P}",
+              "# Purpose: {P}", "# Scope: {P}", "# Suppressions:\n#     {P}: {P}", "@pytest.mark.skip(reason=\"{P}\")  # {P}"]
+SLASH_FORMS = ["// eslint-disable {P}", "// eslint-disable-next-line {P}", "// eslint-disable-line {P}", "/* eslint-disable {P} */", "// @ts-ignore {P}",
+               "// @ts-ignore", "// @ts-expect-error {P}", "// @ts-nocheck {P}", "// tslint:disable {P}", "// tslint:disable-next-line:{P}", "// prettier-ignore {P}",
+               "// thailint: ignore", "// thailint: ignore[{P}]", "// thailint: ignore-file[{P}]", "// thailint: ignore-next-line[{P}]",
+               "// thailint: ignore-start[{P}]", "// thailint: ignore-end {P}", "// dry: ignore-block {P}", "// noqa: {P}", "// nosec {P}", "// {P}", "/* {P} */",
+               "/** {P} */", "/**\n * Purpose: {P}\n * Scope: {P}\n */", "/**\n * @param {{{P}}} x {P}\n * @returns {{{P}}}\n */", "/**\n * Suppressions:\n *   {P}: {P}\n */",
+               "// TODO({P}): {P}", "//! {P}", "/// {P}", "#[allow({P})]", "#![allow({P})]", "#[cfg({P})]", "// clippy::{P}", "#[ignore = \"{P}\"]",
+               "it.skip(\"{P}\", () => {{}}); // {P}"]
+DOC_FORMS_PY = ['"""\nPurpose: {P}\n\nScope: {P}\n\nSuppressions:\n    {P}: {P}\n"""', "'''\n{P}\n'''", '"""{P}"""']
+CODES = ["E501", "W291", "S101", "B008", "no-console", "magic-numbers", "nesting", "dry", "unused_variables", "arg-type", "C0114", "TS2345"]
+
+
+def payload(r, shape=None, n=None, prefix=None, term=None) -> str:
+    shape = shape or r.choice(["alnum", "alnum", "upper", "lower-dash", "spaces", "commas", "comma-space", "dashes", "colons", "open-brackets",
+                               "bracket-pairs", "nested-brackets", "mixed-code-sep", "mixed-word-space", "mixed-punct", "dots", "slashes", "quotes", "backslashes",
+                               "unicode", "tabs"])
+    n = n or r.choice([16, 24, 40, 64, 256, 1024, 4096])
+    runs = {
+        "alnum": lambda: "".join(r.choice("ABCDEFGHJKLMNPQRSTUVWXYZ0123456789") for _ in range(n)),
+        "upper": lambda: "A" * n, "lower-dash": lambda: ("a-" * n)[:n], "spaces": lambda: " " * n, "commas": lambda: "," * n,
+        "comma-space": lambda: (", " * n)[:n], "dashes": lambda: "-" * n, "colons": lambda: ":" * n, "open-brackets": lambda: "[" * min(n, 400),
+        "bracket-pairs": lambda: ("[]" * n)[:n], "nested-brackets": lambda: "[" * min(n // 2, 300) + "x" + "]" * min(n // 2, 300),
+        "mixed-code-sep": lambda: ("E1," * n)[:n], "mixed-word-space": lambda: ("ab " * n)[:n], "mixed-punct": lambda: ("A-b_1. " * n)[:n],
+        "dots": lambda: "." * n, "slashes": lambda: "/" * n, "quotes": lambda: ("\"'" * n)[:n], "backslashes": lambda: "\\" * n,
+        "unicode": lambda: ("é中\U0001f600 " * n)[:n], "tabs": lambda: "\t" * n,
+    }
+    prefix = prefix if prefix is not None else r.choice(["", "", "E501 ", "E501,", "E501, W291 ", "no-console ", "magic-numbers,", "["])
+    term = term if term is not None else r.choice(["", "", ": text", "!", "]", " - reason", ")", " #", "\t", " \\"])
+    return prefix + runs[shape]() + term
+
+
+def forms_for(lang: str):
+    return HASH_FORMS + DOC_FORMS_PY if lang == "py" else SLASH_FORMS
+
+
+def _fill(r, form: str, **kw) -> str:
+    out = form
+    while "{P}" in out:
+        out = out.replace("{P}", payload(r, **kw), 1)
+    return out.replace("{{", "{").replace("}}", "}")
+
+
+def m_comment_payload(r, lang, b, form=None):
+    """a few directive / header / doc comments with adversarial payloads placed into the donor"""
+    forms = forms_for(lang)
+    lines = b.split(b"\n")
+    kinds = []
+    for _ in range(r.choice([1, 2, 4])):
+        f = form or r.choice(forms)
+        text = _fill(r, f).encode("utf-8", "replace")
+        kinds.append(f.split("{")[0].strip()[:24])
+        where = r.choice(["top", "own-line", "trailing", "end"])
+        if where == "top" or not lines:
+            lines.insert(0, text)
+        elif where == "end":
+            lines.append(text)
+        else:
+            j = r.randrange(len(lines))
+            if where == "trailing" and b"\n" not in text and lines[j].strip():
+                lines[j] = lines[j] + b"  " + text
+            else:
+                indent = lines[j][: len(lines[j]) - len(lines[j].lstrip())]
+                lines.insert(j, indent + text.replace(b"\n", b"\n" + indent))
+    return "|".join(kinds), b"\n".join(lines)
+
+
+SWEEP_PREFIX = ["", "E501 ", "E501,"]
+SWEEP_RUNS = [("alnum", 16), ("alnum", 40), ("alnum", 256), ("alnum", 4096), ("upper", 64), ("comma-space", 80), ("spaces", 200), ("commas", 200),
+              ("open-brackets", 40), ("bracket-pairs", 80), ("nested-brackets", 80), ("mixed-code-sep", 120), ("mixed-word-space", 120), ("mixed-punct", 140),
+              ("lower-dash", 80), ("colons", 64)]
+SWEEP_TERM = ["", ": text", "!", "]"]
+
+
+def comment_sweep(lang: str, form: str, seed_rng) -> bytes:
+    """one directive form x every payload shape (deterministic part of every run): one comment per line after a code line"""
+    code = {"py": "value = compute(1)", "rs": "fn run() { let value = compute(1); }"}.get(lang, "const value = compute(1);")
+    out = [code]
+    k = 0
+    for shape, n in SWEEP_RUNS:
+        for pre in SWEEP_PREFIX:
+            for term in SWEEP_TERM:
+                k += 1
+                text = _fill(seed_rng, form, shape=shape, n=n, prefix=pre, term=term)
+                if "\n" in text or form in DOC_FORMS_PY or text.startswith(("@", "it.", "#[", "#![")):
+                    out.append(text)
+                else:
+                    out.append(code + "  " + text if k % 2 else text)
+    return ("\n".join(out) + "\n").encode("utf-8", "replace")
+
+
+MUTATORS.update({"path-segment": m_path_segment, "call-arg": m_call_arg, "operator": m_operator, "numeric-literal": m_numeric_literal,
+                 "comment-payload": m_comment_payload})
+TOKEN_CLASSES = ["path-segment", "call-arg", "operator", "numeric-literal", "comment-payload"]
+CLASSES += TOKEN_CLASSES
+WEIGHTS += [9, 7, 6, 9, 9]
+GRID_CLASSES = ["truncate", "token-delete", "token-dup", "bracket", "encoding", "bom", "eol", "nul", "random-bytes"] + TOKEN_CLASSES
+
+
+def offender_from(r, cls: str, lang: str, donor: bytes, **kw):
+    """like offender(), but from a given donor text"""
+    res = MUTATORS[cls](r, lang, donor, **kw) if kw else MUTATORS[cls](r, lang, donor)
+    kind, data = res[0], res[1]
+    name = res[2] if len(res) == 3 else "case" + c11_pool.EXT[lang]
+    return {"cls": cls, "kind": kind, "lang": lang, "name": name, "data": data}
